@@ -56,6 +56,8 @@ def execute(job):
             dims = (N("col"), N("zc")) if first else (N("zc"), N("col"))
             da = xr.DataArray(phis if first else phis.T, dims=dims, name=N("phi"))
             td = xr.DataArray(real_th if first else real_th.T, dims=dims, name=N("theta"))
+            if job.get("tdtype"):
+                td = td.astype(job["tdtype"])          # integer-valued profiles: exact in every dtype used
             if job["chunk"]:
                 da, td = da.chunk({N("col"): 1}), td.chunk({N("col"): 1})
             kw = {"method": job["method"], "mask_edges": job["mask"], "bypass_checks": job["bypass"]}
@@ -66,7 +68,10 @@ def execute(job):
             if tk == "array":
                 target, exp_dim = real_lev[0], "theta"
             elif tk == "da1d":
-                target, exp_dim = xr.DataArray(real_lev[0], dims=[N("lev")], coords={N("lev"): real_lev[0]}), "lev"
+                # the target's own index labels are its values, other numbers (layer numbers), or absent
+                lab = job.get("labels", "values")
+                cds = {N("lev"): real_lev[0]} if lab == "values" else ({N("lev"): np.arange(len(real_lev[0])) + 1} if lab == "numbers" else {})
+                target, exp_dim = xr.DataArray(real_lev[0], dims=[N("lev")], coords=cds), "lev"
             else:
                 target = xr.DataArray(np.array(real_lev), dims=[N("col"), N("lev")])
                 kw["target_dim"] = N("lev")
@@ -78,7 +83,9 @@ def execute(job):
                 except Exception:
                     pass
             if job.get("td_default"):
-                res = grid.transform(da.assign_coords({N("zc"): ds[N("zc")]}), N("Z"), target, **kw)
+                # the array carries the axis coordinate or only the dimension: the default is the GRID's coordinate
+                da_ = da.assign_coords({N("zc"): ds[N("zc")]}) if job.get("da_coords", True) else da
+                res = grid.transform(da_, N("Z"), target, **kw)
             else:
                 res = grid.transform(da, N("Z"), target, target_data=td, **kw)
             nd = [d for d in res.dims if d != N("col")]
@@ -156,8 +163,12 @@ def gen_jobs(rng, thorough):
         affine = (0.0, 1.0)
         if method == "linear" and rng.random() < 0.3:
             affine = rng.choice([(1024.0, 2.0 ** -10), (1024.0, 2.0 ** -14), (-8.0, 0.5), (0.0, 2.0 ** -20)])
+        tdtype = None
+        if via == "grid" and method == "linear" and affine == (0.0, 1.0) and not td_default and rng.random() < 0.25:
+            tdtype = rng.choice(["int64", "int32", "float32"])
         jobs.append({"via": via, "method": method, "thetas": thetas, "phis": [[rng.randint(-6, 6) for _ in range(n)] for _ in range(ncol)],
-                     "affine": list(affine), "levels": lv, "mask": rng.random() < 0.5, "bypass": bypass, "ids": ids, "seed": cid, "target": target,
+                     "affine": list(affine), "tdtype": tdtype, "labels": rng.choice(["values", "numbers", "none"]),
+                     "da_coords": rng.random() < 0.5, "levels": lv, "mask": rng.random() < 0.5, "bypass": bypass, "ids": ids, "seed": cid, "target": target,
                      "suffix": rng.choice([None, None, "_x", ""]), "chunk": rng.random() < 0.4, "extra_first": rng.random() < 0.5, "td_default": td_default})
     return jobs
 
